@@ -4,8 +4,10 @@
 (* element, is well-formed whatever the text was (as long as its characters are XML        *)
 (* characters) - and leaving any one of & < unescaped is not.                             *)
 EXTENDS XmlLex, TLC
-CONSTANT MaxLen
-Units == {60, 62, 38, 47, 33, 45, 63, 59, 35, 34, 39, 61, 91, 93, 97, 108, 116, 32, 120, 49}
+CONSTANTS MaxLen, AllUnits
+\* < > & / ! - ? ; # " ' = [ ] a l t space x 1   (quick: the first twelve without ? ' [ ] l t x 1)
+Units == IF AllUnits THEN {60, 62, 38, 47, 33, 45, 63, 59, 35, 34, 39, 61, 91, 93, 97, 108, 116, 32, 120, 49}
+         ELSE {60, 62, 38, 47, 33, 45, 59, 35, 34, 61, 97, 32}
 Texts == UNION {[1..k -> Units] : k \in 0..MaxLen}
 VARIABLES t
 Init == t \in Texts
